@@ -36,6 +36,8 @@ LEAN = VERIF / 'lean'
 PYDEPS = VERIF / '.pydeps'
 SHIMS = VERIF / 'harness' / 'shims'
 EVIDENCE = VERIF / 'evidence'
+if str(REPO) != '/repo':   # scratch trees (older commits, seeded changes) must not overwrite /repo's evidence
+    EVIDENCE = VERIF / 'replays' / 'evidence_other_tree'
 REPLAYS = VERIF / 'replays'
 CORPUS = VERIF / 'corpus'
 KNOWN = VERIF / 'known_findings.json'
@@ -168,9 +170,27 @@ def strip_comments(text):
     return text
 
 
-def grep_forbidden():
+def module_closure(modules):
+    """the Lean files of `modules` and of everything under AbacusVerif/ they (transitively) import"""
+    seen, todo = {}, list(modules)
+    while todo:
+        m = todo.pop()
+        if m in seen:
+            continue
+        fp = LEAN / (m.replace('.', '/') + '.lean')
+        if not fp.exists():
+            seen[m] = None
+            continue
+        seen[m] = fp
+        for mm in re.findall(r'^\s*(?:public\s+)?import\s+(AbacusVerif\.\S+|Drivers\.\S+)', fp.read_text(), re.M):
+            todo.append(mm)
+    return [fp for fp in seen.values() if fp is not None]
+
+
+def grep_forbidden(modules):
+    """forbidden constructs in the Lean sources this property's theorems and driver depend on"""
     hits = []
-    for p in sorted((LEAN / 'AbacusVerif').rglob('*.lean')) + sorted((LEAN / 'Drivers').rglob('*.lean')):
+    for p in sorted(module_closure(modules)):
         txt = strip_comments(p.read_text())
         for i, l in enumerate(txt.splitlines(), 1):
             if FORBIDDEN_RE.search(l):
@@ -231,7 +251,7 @@ def lean_obligations(ctx, modules, theorems):
         if not broken:
             broken.append({'theorem': '<build>', 'why': 'lake build failed outside a property theorem: ' +
                            json.dumps(build_errors[:5])})
-    forb = grep_forbidden()
+    forb = grep_forbidden(list(modules) + ['Drivers.%s' % ctx.pid])
     for h in forb:
         broken.append({'theorem': '<source>', 'why': 'forbidden construct: ' + h})
     ctx.obligations = len(theorems)
@@ -384,7 +404,7 @@ def load_known():
 
 
 def write_evidence(ctx, violations):
-    EVIDENCE.mkdir(exist_ok=True)
+    EVIDENCE.mkdir(parents=True, exist_ok=True)
     cov = {
         'obligations': ctx.obligations,
         'discharged': ctx.discharged,
